@@ -32,10 +32,19 @@ tvars == <<vars, l, drift, tno, k>>
 Ev == Trace[l]
 IsEv(e) == l <= Len(Trace) /\ Ev.e = e
 
-\* When the retry of a failed attempt is due: initial_retry_time * retry_time_scale ^ (n - 1) after the n-th
-\* attempt of the message (queue.go: tryDelivery and, across a restart, readDiskQueue).  The harness logs the
-\* number of the attempt (att); rd / scale come from the Cfg line.  Older traces carry the due time itself.
-RetryDue(e) == IF "att" \in DOMAIN e /\ "scale" \in DOMAIN cfg
+\* When the retry of a failed attempt is due at the earliest: initial_retry_time * F(n) after the n-th attempt of
+\* the message (queue.go: tryDelivery and, across a restart, readDiskQueue), F(n) = the whole part of
+\* retry_time_scale ^ (n - 1): the code converts the factor to a whole number before it multiplies, and under
+\* the weaker reading of C12 ("its scheduled time" = the time the queue itself scheduled) that is the
+\* lower bound used here.  retry_time_scale is the rational snum / sden (Cfg line), so that everything stays
+\* in integers; the harness chooses rd so that the untruncated delays are whole ticks as well.  The harness logs
+\* the number of the attempt (att).  Older traces carry an integer scale, or the due time itself.
+\* This is only the lower bound known when the attempt starts: the time the running queue really handed to its
+\* wheel for the retry is observed afterwards (event WheelAdd, ObsWheel) and raises it.
+Pw(b, x) == IF x <= 0 THEN 1 ELSE b ^ x
+RetryDue(e) == IF "att" \in DOMAIN e /\ "snum" \in DOMAIN cfg
+               THEN e.now + cfg.rd * (Pw(cfg.snum, e.att - 1) \div Pw(cfg.sden, e.att - 1))
+               ELSE IF "att" \in DOMAIN e /\ "scale" \in DOMAIN cfg
                THEN e.now + cfg.rd * (cfg.scale ^ (e.att - 1)) ELSE e.ndue
 
 ObsApply(o, e) ==
@@ -50,6 +59,7 @@ ObsApply(o, e) ==
                                  ELSE ObsTerminal(o1, e.m)
     [] e.e = "Panic"       -> ObsPanic(o)
     [] e.e = "Restart"     -> ObsRestart(o, e.now, e.pid)
+    [] e.e = "WheelAdd"    -> ObsWheel(o, e.ent, e.due)
     [] e.e = "End"         -> ObsEnd(ObsSpool(o, "end", ToSet(e.pending), ToSet(e.broken)), ToSet(e.hung), e.now)
     [] OTHER               -> o
 
@@ -68,8 +78,11 @@ TReset ==
   /\ IsEv("Cfg")
   /\ LET c0 == [due |-> Ev.due, close |-> Ev.close, retry |-> ToSet(Ev.retry), par |-> Ev.par,
                 hdr |-> ToSet(Ev.hdr), panic |-> ToSet(Ev.panic)]
-         \* (rd, scale: only read by RetryDue; the design's actions do not look at them)
-         c == IF "scale" \in DOMAIN Ev /\ "rd" \in DOMAIN Ev
+         \* (rd, scale, snum, sden: only read by RetryDue; the design's actions do not look at them)
+         c == IF "snum" \in DOMAIN Ev /\ "sden" \in DOMAIN Ev /\ "rd" \in DOMAIN Ev
+              THEN [due |-> c0.due, close |-> c0.close, retry |-> c0.retry, par |-> c0.par, hdr |-> c0.hdr,
+                    panic |-> c0.panic, rd |-> Ev.rd, snum |-> Ev.snum, sden |-> Ev.sden]
+              ELSE IF "scale" \in DOMAIN Ev /\ "rd" \in DOMAIN Ev
               THEN [due |-> c0.due, close |-> c0.close, retry |-> c0.retry, par |-> c0.par, hdr |-> c0.hdr,
                     panic |-> c0.panic, rd |-> Ev.rd, scale |-> Ev.scale]
               ELSE c0 IN
@@ -130,6 +143,15 @@ C_Clock ==
   /\ l' = l + 1 /\ UNCHANGED <<drift, tno, k>>
   /\ Reached(l + 1)
 
+\* The harness read the wheel of the running queue: a retry was handed over with this time.  The design's own
+\* retry time (now + RetryDelay) is the lower bound already recorded, so on conforming code this leaves obs alone.
+C_Wheel ==
+  /\ ~drift /\ IsEv("WheelAdd") /\ ~ended
+  /\ obs' = ObsApply(obs, Ev)
+  /\ UNCHANGED <<cfg, now, wheelV, apc, cpc, tickV, workV, queueV, ended, schedV>>
+  /\ l' = l + 1 /\ UNCHANGED <<drift, tno, k>>
+  /\ Reached(l + 1)
+
 C_End ==
   /\ ~drift /\ IsEv("End") /\ ~ended
   /\ ~ProcEnabled /\ ~ContPending
@@ -168,7 +190,7 @@ M_Step ==
   /\ UNCHANGED <<cfg, now, wheelV, apc, cpc, tickV, workV, queueV, ended, schedV, drift, tno, k>>
   /\ IF Ev.e = "End" THEN Publish(TRUE, obs') ELSE TRUE
 
-TNext == TReset \/ C_Restart \/ C_Post \/ C_StepSilent \/ C_StepVis \/ C_Cont \/ C_Clock \/ C_End \/ M_Step
+TNext == TReset \/ C_Restart \/ C_Post \/ C_Wheel \/ C_StepSilent \/ C_StepVis \/ C_Cont \/ C_Clock \/ C_End \/ M_Step
 TSpec == TInit /\ [][TNext]_tvars
 
 SeqAt(n) == IF n >= 1 /\ n <= Len(Trace) THEN Trace[n].seq ELSE 0
